@@ -1,8 +1,9 @@
 (* Extraction for C04: the combined-reader model, the reference semantics, the default-engine
-   algorithm model (for the trigger flags of the C01 findings) and the C04 trigger predicates. *)
+   algorithm model (for the trigger flags of the C01 findings) and the C04 trigger predicates;
+   the ListUsers algorithm model of C06 (outcome set and triggers) to attribute a ListUsers difference. *)
 Require Extraction.
 Require Import ExtrOcamlBasic.
-From OFGA Require Import Check.V1 Check.CtxTriggers Store.CombinedReader.
+From OFGA Require Import Check.V1 Check.CtxTriggers Query.ListUsers Store.CombinedReader.
 Extraction Language OCaml.
 Extraction "c04_model.ml"
   combined_read_over combined_read_user_tuple_over combined_read_userset_tuples_over combined_rswu_over
@@ -11,4 +12,5 @@ Extraction "c04_model.ml"
   read_shape_ok rut_shape_ok usersets_shape_ok rswu_shape_ok keys_unique disjoint_keys objs_unique tuple_eqb
   index_by_user index_by_object
   lfp atomval stratified check_top valid_for_read
-  lenient_cond wild_direct_conflict model_recursive.
+  lenient_cond wild_direct_conflict model_recursive
+  list_users.
